@@ -534,6 +534,12 @@ def run(cx):
         t = res.text or ""
         a, b = t.find(", ".join(map(str, g1))), t.find(", ".join(map(str, g2)))
         r.check(not res.raised and 0 <= a < b and t.count("createChar(") == 2, f"LCDGlyph/both-bitmaps-emitted@{place}", (em, em.func("_emit_block")), f"two glyph() calls for slot 0 with different bitmaps in {place}: the firmware must program {g1} then {g2}")
+        # a device name bound again to another pin: commands before the re-declaration drive the old pin, later ones the new
+        nodes = [cls["LedDecl"](name="dev", pin=5), cls["LedOn"](name="dev"), cls["LedDecl"](name="dev", pin=6), cls["LedOn"](name="dev")]
+        res = pe.emit_program(setup=nodes) if place == "setup" else pe.emit_program(setup=nodes[:1], loop=nodes[1:])
+        t = res.text or ""
+        w5, w6 = t.find("digitalWrite(5, HIGH)"), t.find("digitalWrite(6, HIGH)")
+        r.check(not res.raised and 0 <= w5 < w6, f"LedDecl/redeclared-pin-used-from-there-on@{place}", (em, em.func("_emit_block")), f"`led = Led(5); led.on(); led = Led(6); led.on()` in {place}: the first on() must drive pin 5 and the second pin 6 (found at offsets {w5}, {w6})")
         p1, p2 = [1, 0], [0, 1, 1]
         nodes = [l2.decl_node("Led"), cls["LedFlashPattern"](name="dev", pattern=p1, delay_ms=5), cls["LedFlashPattern"](name="dev", pattern=p2, delay_ms=5)]
         res = pe.emit_program(setup=nodes) if place == "setup" else pe.emit_program(setup=nodes[:1], loop=nodes[1:])
